@@ -272,7 +272,7 @@ func cmdCheck(args []string) {
 			misfit[fr.FullName] = "clauses of its contract no longer resolve against the function"
 		case expLoops >= 0 && expLoops != len(fr.VC.rootFr.loops):
 			misfit[fr.FullName] = "the function's number of loops changed (loop clauses are keyed by ordinal)"
-		case haveVars && expVars != loopVarSignature(fr.VC.rootFr):
+		case haveVars && !loopVarsCover(expVars, loopVarSignature(fr.VC.rootFr)):
 			misfit[fr.FullName] = "the loop-carried variables of its loops changed (the invariants were written for other loops)"
 		}
 	}
@@ -568,6 +568,46 @@ func cmdReplay(args []string) {
 }
 
 // loopVarSignature: per loop (by ordinal) the source names of its loop-carried variables.
+// loopVarsCover: every loop of the recorded signature still exists under its ordinal and still
+// carries every variable it carried then. A loop that has GAINED a loop-carried variable is the same
+// loop for the invariants written for it (they name the old variables, which are all still there);
+// one that lost or renamed a variable is not.
+func loopVarsCover(exp, now string) bool {
+	parse := func(sig string) map[string]map[string]bool {
+		m := map[string]map[string]bool{}
+		for _, part := range strings.Split(sig, ";") {
+			if part == "" {
+				continue
+			}
+			ord, names, _ := strings.Cut(part, ":")
+			set := map[string]bool{}
+			for _, n := range strings.Split(names, ",") {
+				if n != "" {
+					set[n] = true
+				}
+			}
+			m[ord] = set
+		}
+		return m
+	}
+	e, n := parse(exp), parse(now)
+	if len(e) != len(n) {
+		return false
+	}
+	for ord, names := range e {
+		cur, ok := n[ord]
+		if !ok {
+			return false
+		}
+		for nm := range names {
+			if !cur[nm] {
+				return false
+			}
+		}
+	}
+	return true
+}
+
 func loopVarSignature(fr *Frame) string {
 	var parts []string
 	for h, li := range fr.loops {
